@@ -77,7 +77,8 @@ class DiscParallelExecution(CallableParallelExecution[StrKeyMapping, DisciplineD
             task_submitted_callback=task_submitted_callback,
         )
 
-        if len(self._disciplines) == 1 or len(self._disciplines) != len(inputs):
+        n_disciplines = len(self._disciplines)
+        if n_disciplines == 1 or n_disciplines != len(inputs):
             if (
                 not self.use_threading
                 and self.MULTI_PROCESSING_START_METHOD
@@ -85,7 +86,11 @@ class DiscParallelExecution(CallableParallelExecution[StrKeyMapping, DisciplineD
                 and ExecutionStatistics.is_enabled
             ):
                 self._disciplines[0].execution_statistics.n_executions += len(inputs)  # type: ignore[operator] # checked with activate_counter
-        else:
+
+        if n_disciplines == len(inputs):
+            # One task per discipline, including the case of a single discipline
+            # executed once in a sub-process (e.g. an MDAJacobi of one self-coupled
+            # discipline): the local data of the disciplines are updated.
             for disc, output in zip(self._disciplines, ordered_outputs):
                 # When the discipline in the worker failed, output is None.
                 # We do not update the local_data such that the issue is caught by the
